@@ -32,7 +32,7 @@ for p in props:
         "level_claimed": {
             "category": "proof",
             "text": spec.get("level_text", ""),
-            "design_ref": f"DESIGN.md section 6, {pid}",
+            "design_ref": f"DESIGN.md section 6 ({pid}: design), sections 9.5-9.6 (as built), notes/{pid}.md (theorem table)",
         },
         "level_note": spec.get("level_note", "; ".join(spec.get("trusted_base", []))),
         "technique": spec.get("technique", "Lean 4 theorems over a model tied to the source by a regenerated-table translator "
